@@ -348,6 +348,29 @@ def check_reuse(case, stats, proj, what):
         compare(case, fifth, fresh, proj, what + " (a brand-new compiler after another compiler raised on a malformed document)")
     check_presentations(case, doc, what)
     check_result_isolation(case, doc, what)
+    # a compile interrupted from outside (Ctrl-C, a test time-out: a BaseException surfacing inside an id request) leaves nothing behind either
+    if doc.get("feature") and doc["feature"]["children"]:
+        class Interrupting(gh.IdGenerator):
+            def __init__(self, at):
+                super().__init__()
+                self.at, self.n = at, 0
+
+            def get_next_id(self):
+                self.n += 1
+                if self.n == self.at:
+                    raise KeyboardInterrupt()
+                return super().get_next_id()
+        total = len([1 for p in first for _ in [p] + p.get("steps", [])]) if first and isinstance(first[0], dict) and "steps" in first[0] else 0
+        for at in sorted({1, 2, max(1, total // 2), max(1, total - 1)}):
+            g3 = Interrupting(at)
+            c3 = gh.Compiler(g3)
+            try:
+                c3.compile(copy.deepcopy(doc))
+            except KeyboardInterrupt:
+                pass
+            g3.at = -1
+            sixth = c3.compile(copy.deepcopy(other))
+            compare(case, sixth, fresh, proj, what + " (after a compile of another document that was interrupted at id request #%d)" % at)
     # the caller edits the document in place and compiles the same objects again with the same compiler
     d2 = json.loads(json.dumps(doc))
     c2 = gh.Compiler(gh.IdGenerator())
